@@ -152,13 +152,27 @@ func execSamVar(r *RNG, c *Case) {
 
 // variantsOnFasta runs variants.Variants on an MSA text whose reference record is named refID
 func variantsOnFasta(c *Case, msaTxt string, refID string) result {
-	return safeRun(30*time.Second, func() (string, error) {
-		var out bytes.Buffer
-		err := variants.Variants(bytes.NewReader([]byte(msaTxt)), false, refID, strings.NewReader(c.Get("anntext")), c.Get("annfmt"), &out,
-			atoi(c.Get("start")), atoi(c.Get("end")), false, 0, c.Get("append") == "1", 1)
-		return out.String(), err
-	})
+	// two cases in three use 2 or 4 workers under the scheduling jitter: the reference record travels through the workers
+	// like any other and may reach the writer after the records behind it (a two-record pair file included)
+	thr := []int{1, 2, 4}[idSeed(c.ID)%3]
+	run := func() result {
+		return safeRun(30*time.Second, func() (string, error) {
+			var out bytes.Buffer
+			err := variants.Variants(bytes.NewReader([]byte(msaTxt)), false, refID, strings.NewReader(c.Get("anntext")), c.Get("annfmt"), &out,
+				atoi(c.Get("start")), atoi(c.Get("end")), false, 0, c.Get("append") == "1", thr)
+			return out.String(), err
+		})
+	}
+	if j := c.Get("jit"); thr > 1 && (j == "" || j == "0") {
+		var res result
+		variantsRuns++
+		withJitter(idSeed(c.ID)+uint64(variantsRuns), 400, func() { res = run() })
+		return res
+	}
+	return run()
 }
+
+var variantsRuns int
 
 // the FASTA route: toPairAlign's files (or toMultiAlign --pad rows + reference) through variants
 func runFastaRoute(c *Case, kind string) result {
